@@ -4,6 +4,11 @@ import json, subprocess
 
 # id: (level, engine, technique, level text, level note, design ref)
 CHECKS = {
+ "C03": ("model_checking", "explore",
+         "explicit-state exploration of the program tree: every pipeline up to a length bound x every modifier placement, real code vs. reference interpreter",
+         "Every pipeline of length 1..2 over 15 base steps (elementary, one-way, and six kinds of user macros incl. directional, nested, inverted-last-step and stack bodies) x 5 inv spellings x 6 omit spellings, and length 3 over a reduced alphabet (thorough: length 3 full, 4..5 reduced), is instantiated and applied in both directions; results and counts are compared bit for bit with a reference interpreter that holds the program as a tree and applies stand-alone instantiations of the elementary steps one after another.",
+         "Trusts the reference interpreter's transcription of the composition rules in the property statement and the elementary operators themselves (only composition, inversion, omission and counting are judged). Pipelines longer than the bound are not covered.",
+         "DESIGN.md §3 C03"),
  "C12": ("model_checking", "explore",
          "explicit-state exploration: every program up to a length bound + BFS over concrete machine states, real code vs. reference stack machine",
          "Every stack program of length 1..2 over the full instruction alphabet and 1..3 over a reduced one (thorough: 1..3 full, 4 reduced) is instantiated and applied through the public API in both directions on two operand sets, twice, and compared bit for bit with an abstract stack machine transcribed from the documentation; a BFS over concrete (stack, operands) states steps the real stack_fwd/stack_inv next to the model so the hidden stack is compared after every transition; ill-formed sub-commands must be rejected.",
@@ -48,7 +53,7 @@ def main():
         },
         "engines": [
             {"name": "space", "path": "/verif/mc/src/engine.rs", "kind_free_text": "exhaustive mixed-radix product enumeration on 16 threads (par_range/decode)", "serves_properties": []},
-            {"name": "explore", "path": "/verif/mc/src/props", "kind_free_text": "explicit-state / program-tree exploration of the real API against reference models written in Rust", "serves_properties": ["C12"]},
+            {"name": "explore", "path": "/verif/mc/src/props", "kind_free_text": "explicit-state / program-tree exploration of the real API against reference models written in Rust", "serves_properties": ["C03", "C12"]},
             {"name": "workers", "path": "/verif/mc/src/engine.rs", "kind_free_text": "worker subprocesses (2 MiB stack, 4 GiB address space, watchdog) for hang / overflow / abort detection", "serves_properties": []},
         ],
         "checks": checks,
